@@ -12,7 +12,7 @@ RULE = ("state = canonical key of the real exchange reached by an operation hist
         "invalid requests) from every state up to the depth; the interest-formula / loan-lifecycle oracle runs on every transition. Distinct = "
         "distinct states; non-trivial = reached by a transition that produced order events, a rejection or a loan.")
 ASSUMPTIONS = [
-    "amounts 1..3 units, price grid {30,90,100,110,300}, volumes {0,10,40,41.7,1e5}; configurations of "
+    "amounts 1..5 units (x10 in K29), price grid {30,33.37,90,100,110,300}, volumes giving 0/1/2.5/2.75/3/4/10 units of liquidity; configurations of "
     "checks/_exch_common.py (fee x liquidity x lending x precision x initial balances x 1-2 pairs)",
     "interest grid: 3 percentages x 5 periods x (2 minimums x 2 interest symbols with daily steps + 2 sub-second step lengths) x 3 precisions x 5 principals x 4 price paths x ages 0..12; largest-first: every tuple of 2 (quick) / 3 (thorough) loan sizes x 6 proceeds levels x both sides, decided differentially",
     "strategy actions are issued after at least one bar (orders placed before the first event are a separate scenario)",
